@@ -229,6 +229,88 @@ def check(prog, run):
     c06.closure_breaks(prog, run, r, fns)
 
     # ---- A1 definite assignment in the execution path
+    # ---- L1 literal kinds are accepted only where the executor can coerce them
+    r = run.rule("L1", "ValuesOfCorrectType: a list / object / enum literal is accepted silently only where the expected type is a "
+                       "ListType / InputObjectType / EnumType: on every execution of the handler consistent with every "
+                       "`isinstance(_, <that class>)` test being false, each exit has reported an error, delegated to the scalar "
+                       "check, or left because the expected type is unknown (None); otherwise the literal reaches the "
+                       "executor's coercion, which raises", 3)
+    from .. import boolx
+    voc = rcs.get("ValuesOfCorrectTypeChecker")
+    shapes.require(voc is not None, "C05.L1: ValuesOfCorrectTypeChecker not found")
+    for hname, accept in (("enter_list_value", "ListType"), ("enter_object_value", "InputObjectType"), ("enter_enum_value", "EnumType")):
+        m = voc.find_method(hname)
+        shapes.require(m is not None, "C05.L1: ValuesOfCorrectTypeChecker.%s not found" % hname)
+        run.looked_at(m)
+
+        def decide(t, accept=accept):
+            try:
+                e = ast.parse(t, mode="eval").body
+            except SyntaxError:
+                return None
+            if isinstance(e, ast.Call) and isinstance(e.func, ast.Name) and e.func.id == "isinstance" and len(e.args) == 2 \
+                    and any(isinstance(n, ast.Name) and n.id == accept for n in ast.walk(e.args[1])):
+                return False
+            return None
+        has_test = any(decide(boolx.text(n)) is False for n in ast.walk(m.node) if isinstance(n, ast.Call))
+        try:
+            _ev, exits = boolx.walk_under(m.node, decide)
+        except ValueError as e:
+            raise AnalysisError("C05.L1: %s" % e)
+        r.instance("%s: %d exits with every isinstance(_, %s) false (test present: %s)" % (hname, len(exits), accept, has_test))
+        if not has_test:
+            run.report(r, "%s:%s:no-type-test(%s)" % (voc.module.name, m.qualname, accept), m.where(),
+                       "%s never tests the expected type against %s: a %s literal in any other position is not rejected by that test"
+                       % (hname, accept, hname[6:].replace("_", " ")))
+        for kind, st, env in exits:
+            calls = [boolx.text(c.func) for c in env.get(boolx.CALLS, ())]
+            reported = any(c.split(".")[-1] in ("_report_bad_value", "add_error") or c.split(".")[-1].startswith("_check_") for c in calls)
+            unknown = any((k.endswith(" is None") and v is True) or (k != boolx.CALLS and v is False and k.replace(".", "_").isidentifier())
+                          for k, v in env.items())
+            if not (reported or unknown):
+                cond = ", ".join("%s=%s" % kv for kv in sorted(env.items()) if kv[0] != boolx.CALLS)
+                run.report(r, "%s:%s:silent-accept(%s)" % (voc.module.name, m.qualname, accept), m.where(st) if st is not None else m.where(),
+                           "%s can finish without reporting although the expected type is not a %s (when %s): the literal passes "
+                           "validation and the executor's coercion of it raises" % (hname, accept, cond or "always"))
+
+    # ---- N1 node-kind attribute agreement (implicit AttributeError)
+    r = run.rule("N1", "every attribute read on the node a handler receives — in the handler of TypeInfoVisitor / a registered "
+                       "rule, or in any resolved callee the node is passed to (incl. by-name resolution such as "
+                       "ScalarType.parse_literal) — exists on every node class the dispatch table registers for that handler "
+                       "(slots, methods), unless narrowed by isinstance or inside try/except AttributeError; an "
+                       "AttributeError would leave validation as a crash", 100)
+    from .. import kindflow
+    ncs = nodeshape.node_classes(prog)
+    kf = kindflow.KindFlow(prog, ncs, nodeshape.abstract_classes(prog))
+    h2k = {}
+    for mname in ("enter", "leave"):
+        dm = disp.find_method(mname)
+        shapes.require(dm is not None, "C05.N1: DispatchingVisitor.%s not found" % mname)
+        for reg in nodeshape.dispatch_registries(dm):
+            for cname, h, _v in reg.entries:
+                if h:
+                    h2k.setdefault(h, set()).add(cname)
+    shapes.require(len(h2k) >= 60, "C05.N1: dispatch tables shrank (%d handlers)" % len(h2k))
+    for c in classes:
+        for n, m in handler_methods(c):
+            if m.cls is disp or n not in h2k:
+                continue
+            ps = [x for x in m.params if x != prog.self_name(m)]
+            if not ps:
+                continue
+            before = kf.reads
+            kf.flow(m, ps[0], kf.expand(h2k[n]))
+            r.instance("%s.%s(%s: %s): %d attribute reads followed" % (c.name, n, ps[0], "|".join(sorted(h2k[n])), kf.reads - before))
+    seen_p = set()
+    for fi, node, attr, missing, chain in kf.problems:
+        k = (fi.key, attr, tuple(missing))
+        if k in seen_p:
+            continue
+        seen_p.add(k)
+        run.report(r, "%s:%s:no-attribute(%s.%s)" % (fi.module.name, fi.qualname, "|".join(missing), attr), fi.where(node),
+                   "`%s` is evaluated with a %s node (via %s), which has no attribute `%s`: AttributeError escapes validation"
+                   % (norm_stmt(node), " / ".join(missing), " -> ".join(chain), attr))
+
     r = run.rule("A1", "every local variable read in execution/** and utilities/** functions is assigned on every path reaching "
                        "the read (definite assignment over the CFG incl. exception edges)", 100)
     mods = [m for m in prog.modules.values() if m.name.startswith("py_gql.execution") or m.name.startswith("py_gql.utilities")]
